@@ -1,5 +1,5 @@
 (* C02 — suggest: exact count, sticky per worker, fresh ids.  Statements only. *)
-From VZ Require Import Base.Prelude Model.Service Proofs.ServiceP Proofs.WedgeP Proofs.StickyP Proofs.ReachP Proofs.FrameP Proofs.SuggestSpecP.
+From VZ Require Import Base.Prelude Model.Service Proofs.ServiceP Proofs.WedgeP Proofs.StickyP Proofs.ReachP Proofs.FrameP Proofs.SuggestSpecP Proofs.SortedP.
 
 (* every new trial is numbered max+1: creating it always succeeds, appends it, its id is larger than every id in the
    study and the maximum grows by exactly one (so ids increase with creation order) *)
@@ -122,6 +122,16 @@ Proof.
   split; [exact (Hown Hr)|exact (legal_not_requested _ _ Hl Hr)].
 Qed.
 Print Assumptions C02_owner_never_changes.
+
+(* IDS INCREASE WITH CREATION ORDER, ON EVERY HISTORY.  In every state reachable from the initial state the trials of a
+   study are stored in strictly increasing id order: every creation (CreateTrial, the handed-out and the queued suggestions
+   of SuggestTrials) reads the largest id under the study lock and appends id + 1, rewrites keep a trial's position,
+   deletions keep the order.  Hence listing order = id order = creation order (the "first N own ACTIVE trials" of the
+   sticky clause are the oldest ones). *)
+Theorem C02_ids_increase_with_creation_order : forall ops k n,
+  get_node k (nodes (run_all ops init_state)) = Some n -> Sorted.StronglySorted N.lt (map t_id (n_trials n)).
+Proof. intros ops k n H. exact (reachable_sorted ops k n H). Qed.
+Print Assumptions C02_ids_increase_with_creation_order.
 
 (* worked instance (kernel-evaluated): two workers, over-delivery, queued trials handed to the second worker *)
 Theorem C02_worked_instance :
